@@ -172,6 +172,7 @@ def run_case(execute, case):
 _FAMS = None
 _SEED = 0
 _TMP = None
+_PREV_CHUNKS = []  # chunks this worker process executed before the current one (for history-dependent replays)
 
 
 def _worker_init():
@@ -243,7 +244,8 @@ def _run_chunk(task):
                 sig = (v["site"], v["clause"], v["cls"])
                 res["sigs"][sig] += 1
                 if res["sigs"][sig] <= 2 and len(res["violations"]) < MAX_VIOL_PER_CHUNK:
-                    res["violations"].append(dict(v, family=fam.name, index=i, chunk_start=start, case=fam.describe(case)))
+                    res["violations"].append(dict(v, family=fam.name, index=i, chunk_start=start, prev_chunks=list(_PREV_CHUNKS[-3:]),
+                                                  case=fam.describe(case)))
         # determinism self-check on a fixed 1/97 slice
         if i % 97 == 0:
             _case2, obs2 = fam.run_index(i, _SEED)
@@ -263,6 +265,7 @@ def _run_chunk(task):
                     res["violations"].append(dict(v, family=fam.name, index=i, case=fam.describe(case)))
                 res["n_viol_cases"] += 1
     _clean_tmp()
+    _PREV_CHUNKS.append([fi, start, stop])
     return res
 
 
